@@ -2,12 +2,12 @@
 # regenerates Props/C02.v and Props/C07.v from the proved statements (run from /verif/coq)
 python3 ../harness/mkprops.py C02 Props/headers/h02.txt \
   Proofs/ResolveRules.v:field_explicit,field_default,merge_local_wins,merge_global_fallback,infer_start_root,infer_start_single,infer_props_single,infer_props_none,infer_first_end_size,infer_first_start_size,infer_later_start_size,infer_later_end_size,infer_size_function,symmetric_expands,perms2_spec,infer_mig_bounds,sort_pulses_perm,sort_pulses_stable \
-  Proofs/DocRules.v Proofs/DocOrder.v > Props/C02.v
+  Proofs/DocRules.v Proofs/DocOrder.v Proofs/DocCompose.v top:Proofs/DocCompose.v:dc_docs_respell,dc_doc2_resolves_by_theorem,dc_same_outcome > Props/C02.v
 python3 ../harness/mkprops.py C07 Props/headers/h07.txt \
   Proofs/MsProofs.v:sort_events_perm,sort_events_sorted,sort_events_id,to_ms_numbering,to_ms_refuses_linear,to_ms_refuses_multisource \
   Proofs/MsRates.v Proofs/SplitChain.v:ancestry_events_chain \
   Proofs/MsGrowth.v \
-  top:Proofs/SplitChain.v:chain_correct,chain_total,split_chain_moves top:Proofs/MsMoves.v:to_ms_moves_at,to_ms_moves > Props/C07.v
+  top:Proofs/SplitChain.v:chain_correct,chain_total,split_chain_moves top:Proofs/MsMoves.v:to_ms_moves_at,to_ms_moves topR:Proofs/MsSizeR.v > Props/C07.v
 python3 ../harness/mkprops.py C20 Props/headers/h20.txt \
   Proofs/CostProofs.v:search_cost_erases,search_cost_complete,search_cost_lower,ring_no_clique,ring_cost_lower,ring_cost_exponential \
   Proofs/StepsProofs.v > Props/C20.v
